@@ -67,6 +67,27 @@ def fam_boxes(ctx, rng):
     check_box(ctx, o)
 
 
+def fam_derived_mesh(ctx, rng):
+    """a Mesh3D made from a Mesh2D that has already answered its own min / max / center, placed in a random (tilted, spun) plane;
+    and meshes obtained by moving / rotating / scaling a mesh whose box was read"""
+    from ladybug_geometry.geometry2d import Mesh2D
+    from ladybug_geometry.geometry3d import Mesh3D
+    m2 = Bd.make(rng, 'Mesh2D')
+    if rng.random() < 0.7:
+        m2.min, m2.max, m2.center
+    pl = Bd.plane(rng, special=rng.random() < 0.3)
+    m3 = Mesh3D.from_mesh2d(m2, pl if rng.random() < 0.85 else None)
+    check_box(ctx, m3)
+    which = rng.choice(['move', 'rotate', 'rotate_xy', 'scale', 'reflect'])
+    m3.min, m3.max
+    if which == 'move': o = m3.move(V3(G.rvec3(rng, 30)))
+    elif which == 'rotate': o = m3.rotate(V3(G.rvec3(rng, 1)), rng.uniform(-3, 3), P3(G.rpt3(rng, 20)))
+    elif which == 'rotate_xy': o = m3.rotate_xy(rng.uniform(-3, 3), P3(G.rpt3(rng, 20)))
+    elif which == 'scale': o = m3.scale(rng.choice([0.5, 2.0, 3.0]), P3(G.rpt3(rng, 20)))
+    else: o = m3.reflect(V3(G.rvec3(rng, 1)).normalize(), P3(G.rpt3(rng, 20)))
+    check_box(ctx, o)
+
+
 def check_box(ctx, o):
     cls = type(o).__name__
     mn, mx = tuple(o.min), tuple(o.max)
@@ -176,6 +197,7 @@ def fam_collections(ctx, rng):
         for p in o.vertices:
             us.append(p.x * c + p.y * s); vs.append(-p.x * s + p.y * c)
     ew, eh = max(us) - min(us), max(vs) - min(vs)
+    given = list(objs)
     if d3:
         w, h, zz = Bn.bounding_box_extents(objs, ang)
         ez = max(p.z for o in objs for p in o.vertices) - min(p.z for o in objs for p in o.vertices)
@@ -184,6 +206,15 @@ def fam_collections(ctx, rng):
     else:
         w, h = Bn.bounding_rectangle_extents(objs, ang)
     sc = max(1.0, ew, eh)
+    # the collection handed in is the caller's: same members afterwards, and the same answer when asked again
+    again = Bn.bounding_box_extents(objs, ang)[:2] if d3 else Bn.bounding_rectangle_extents(objs, ang)
+    if len(objs) != len(given) or any(a is not b for a, b in zip(objs, given)) or tuple(again) != (w, h):
+        ctx.violation('bounding_extents:rotated:argument_changed', 'the list passed in was altered (or a second call on it gives %r after %r)' % (
+            tuple(again), (w, h)), desc); return
+    if not d3:
+        rmn, rmx = Bn.bounding_rectangle(objs, ang)
+        if any(a is not b for a, b in zip(objs, given)):
+            ctx.violation('bounding_rectangle:rotated:argument_changed', 'the list passed in was altered', desc); return
     if abs(w - ew) > 1e-7 * sc or abs(h - eh) > 1e-7 * sc:
         ctx.violation('bounding_extents:rotated', 'extents (%r,%r) expected (%r,%r) in the frame rotated by %r' % (w, h, ew, eh, ang), desc)
 
@@ -301,7 +332,7 @@ def fam_overlap_exact(ctx, rng):
             ax, {'equal': 'exactly', 'below': 'just below', 'above': 'just above'}[case], dist, [float(g) for g in gaps], exp, r1, r2), desc)
 
 
-FAMILIES = [(fam_boxes, 150), (fam_arc_grid, 80), (fam_collections, 30), (fam_mixed, 30), (fam_overlap, 70), (fam_overlap_exact, 60)]
+FAMILIES = [(fam_boxes, 150), (fam_derived_mesh, 40), (fam_arc_grid, 80), (fam_collections, 30), (fam_mixed, 30), (fam_overlap, 70), (fam_overlap_exact, 60)]
 
 
 def explore(ctx):
